@@ -319,6 +319,77 @@ end DafRel
 
 namespace DafRel
 
+theorem sortIf (ts : List SortTerm) (l : List Row) :
+    (if ts.isEmpty then l else isort (lexLe ts) l) = isort (lexLe ts) l := by
+  split
+  · rename_i h
+    rw [List.isEmpty_iff.mp h, isort_lexLe_nil]
+  · rfl
+
+theorem isort_sortThen (s ts : List SortTerm) (l : List Row) :
+    isort (lexLe (UOp.sortThen s ts)) l = isort (lexLe ts) (isort (lexLe s) l) := by
+  rw [isort_lexLe_append]
+  apply isort_congr
+  intro a b _ _
+  exact sortThen_lexLe s ts a b
+
+theorem isort_restrict (ts : List SortTerm) (c : Cols) (h : (UOp.sortCols ts).subset c = true) (l : List Row) :
+    isort (lexLe ts) (l.map (fun r => r.restrict c)) = (isort (lexLe ts) l).map (fun r => r.restrict c) := by
+  apply isort_map
+  intro a b _ _
+  apply lexLe_congr
+  · intro t ht; exact Expr.val_restrict t.expr a c (sortCols_subset_term ts c h t ht)
+  · intro t ht; exact Expr.val_restrict t.expr b c (sortCols_subset_term ts c h t ht)
+
+theorem sortCols_sortThen (s ts : List SortTerm) (c : Cols) (hs : (UOp.sortCols s).subset c = true)
+    (hts : (UOp.sortCols ts).subset c = true) : (UOp.sortCols (UOp.sortThen s ts)).subset c = true := by
+  rw [Cols.subset_iff] at hs hts ⊢
+  intro x hx
+  obtain ⟨t, ht, hct⟩ := (mem_sortCols _ x).mp hx
+  rcases mem_sortThen s ts t ht with h | h
+  · exact hts x ((mem_sortCols _ x).mpr ⟨t, h, hct⟩)
+  · exact hs x ((mem_sortCols _ x).mpr ⟨t, h, hct⟩)
+
+/-- One more sort after the slots (no slice recorded) = the slots with the merged sort. -/
+theorem slots_sort (sl : Slots) (cols : Cols) (ts : List SortTerm) (l : List Row) (hl : RowsHaveCols l cols)
+    (hsl : sl.wfOn cols) (hts : (UOp.sortCols ts).subset (sl.columns cols) = true)
+    (hns : (sl.sliceStart != 0 || sl.sliceStop.isSome) = false) :
+    ({ sl with sort := UOp.sortThen sl.sort ts } : Slots).sem cols l = isort (lexLe ts) (sl.sem cols l) := by
+  unfold Slots.sem
+  simp only [hns, Bool.false_eq_true, if_false, sortIf]
+  simp only [isort_sortThen]
+  generalize hx : isort (lexLe sl.sort) l = x
+  have hxc : RowsHaveCols x cols := by rw [← hx]; exact rowsHaveCols_isort hl
+  cases hpj : sl.proj with
+  | none =>
+    simp only [Slots.columns, hpj] at hts ⊢
+    cases sl.dedup with
+    | false => rfl
+    | true => simp only [if_true]; exact sort_dedup cols ts x hxc
+  | some c =>
+    simp only [Slots.columns, hpj] at hts ⊢
+    have hcs : ∀ t, t ∈ c → t ∈ cols := (Cols.subset_iff _ _).mp (hsl.2 c hpj)
+    rw [← isort_restrict ts c hts]
+    cases sl.dedup with
+    | false => rfl
+    | true =>
+      simp only [if_true]
+      exact sort_dedup c ts _ (rowsHaveCols_restrict hxc hcs)
+
+theorem Slots.sem_sortOnly (ts : List SortTerm) (cols : Cols) (l : List Row) :
+    ({ sort := ts } : Slots).sem cols l = isort (lexLe ts) l := by
+  simp only [Slots.sem, sortIf]
+  rfl
+
+theorem Slots.sem_simple (sl : Slots) (cols : Cols) (l : List Row) (hpn : sl.proj = none)
+    (hns : (sl.sliceStart != 0 || sl.sliceStop.isSome) = false) :
+    sl.sem cols l = if sl.dedup then firstOcc cols (isort (lexLe sl.sort) l) else isort (lexLe sl.sort) l := by
+  simp only [Slots.sem, sortIf, hpn, hns, Slots.columns, Bool.false_eq_true, if_false]
+
+end DafRel
+
+namespace DafRel
+
 theorem SelOK.skipRows {σ : Leaves} {S : Rel} (hS : SelOK σ S) : RowsHaveCols (sem σ S.skipTo) S.skipTo.columns :=
   (metadata_truthful σ S.skipTo hS.skipWF hS.skipTruthful).keys
 
@@ -335,16 +406,74 @@ theorem Slots.columns_sub (sl : Slots) (cols : Cols) (h : sl.wfOn cols) : ∀ t,
 theorem SelOK.cols_sub {σ : Leaves} {S : Rel} (hS : SelOK σ S) : ∀ t, t ∈ S.columns → t ∈ S.skipTo.columns :=
   fun t ht => Slots.columns_sub _ _ hS.slotsWF t ((hS.cols t).mp ht)
 
-/-- `Selection` appended to a Select. -/
-theorem append_sel_sound (σ : Leaves) (st : Store) (fuel : Nat) (p : Pred) (S : Rel) (res : Res)
-    (hS : SelOK σ S) (hop : (UOp.sel p).wfOn S.columns = true)
-    (hnc : ∀ k, (UOp.sel p).finishApply S.skipTo = .ok (.new k) → isChain k = false)
-    (h : appendUnarySel st (fuel+1) (.u (.sel p)) S = .ok res) :
-    AppendOK σ (.sel p) S (res.get S) ∧ SkipOK st fuel S (res.get S) := by
-  rw [appendUnarySel] at h
-  by_cases hb : (S.slots.hasSlice || S.isCompound) = true
-  · simp only [hb, if_true, bind, Except.bind, pure, Except.pure] at h
-    cases hi : (UOp.sel p).finishApply S with
+theorem sortThen_nil_left (ts : List SortTerm) : UOp.sortThen [] ts = ts := rfl
+
+/-- `_nest_unary_over_select`: the operation applied in a new outer query level; a Sort without a Slice
+moves to the outer level (it commutes with the operation). -/
+theorem nestOverSelect_sound (σ : Leaves) (op : UOp) (S : Rel) (hS : SelOK σ S) (hop : op.wfOn S.columns = true)
+    (hsub : ∀ t, t ∈ S.columns → t ∈ op.appliedColumns S.columns)
+    (hcomm : (UOp.sortCols S.slots.sort).subset S.columns = true → ∀ l : List Row, RowsHaveCols l S.columns →
+      op.sem (op.appliedColumns S.columns) (isort (lexLe S.slots.sort) l) =
+        isort (lexLe S.slots.sort) (op.sem (op.appliedColumns S.columns) l))
+    (res : Res) (h : nestOverSelect op S = .ok res) (st : Store) (fuel : Nat) :
+    AppendOK σ op S (res.get S) ∧ SkipOK st fuel S (res.get S) := by
+  unfold nestOverSelect at h
+  by_cases hg : (S.slots.hasSort && !S.slots.hasSlice && (UOp.sortCols S.slots.sort).subset S.columns) = true
+  · simp only [hg, if_true, bind, Except.bind, pure, Except.pure] at h
+    simp only [Bool.and_eq_true, Bool.not_eq_true'] at hg
+    obtain ⟨⟨_, hns⟩, hsc⟩ := hg
+    have hcp : isChain S.skipTo = true → S.slots.proj = none :=
+      fun hc => hS.compoundProj (by rw [hS.compound]; exact hc)
+    cases hsubq : reapplySkip S none none (some ({ S.slots with sort := [] } : Slots)) with
+    | error e => simp [hsubq] at h
+    | ok sub =>
+      simp only [hsubq] at h
+      have hw : ({ S.slots with sort := [] } : Slots).wfOn S.skipTo.columns :=
+        ⟨by simp [UOp.sortCols, Cols.subset_iff], hS.slotsWF.2⟩
+      obtain ⟨r0, hr0, ok0, hk0, hs0⟩ := reapplySkip_kw σ S _ sub hS hw hcp hsubq
+      subst hr0
+      simp only [show (Res.new r0).get S = r0 from rfl] at h
+      have hc0 : ∀ x, x ∈ r0.columns ↔ x ∈ S.columns := by
+        intro x; rw [ok0.cols x, hs0, hk0, hS.cols x]; rfl
+      have hsort' : (UOp.sortCols S.slots.sort).subset (S.slots.columns S.skipTo.columns) = true :=
+        (Cols.subset_iff _ _).mpr fun t ht => (hS.cols t).mp ((Cols.subset_iff _ _).mp hsc t ht)
+      -- the rows of `S` are the sorted rows of the subquery
+      have hsemS : sem σ S = isort (lexLe S.slots.sort) (sem σ r0) := by
+        rw [hS.sem_eq, ok0.sem_eq, hs0, hk0]
+        have := slots_sort ({ S.slots with sort := [] } : Slots) S.skipTo.columns S.slots.sort _ hS.skipRows hw
+          hsort' hns
+        rw [← this]
+        rfl
+      cases hi : op.finishApply r0 with
+      | error e => simp [hi] at h
+      | ok inner =>
+        simp only [hi] at h
+        have hop0 : op.wfOn r0.columns = true := by rw [wfOn_congr op _ _ hc0]; exact hop
+        have F := finishApply_sound σ r0 op ok0.wf ok0.truthful hop0 inner hi
+        have hnc := finishApply_select_not_chain op r0 ok0.isSel inner hi
+        cases ha : applySkip (inner.get r0) { sort := S.slots.sort } with
+        | error e => simp [ha] at h
+        | ok r =>
+          simp only [ha] at h
+          injection h with h; subst h
+          have happl : ∀ x, x ∈ op.appliedColumns r0.columns ↔ x ∈ op.appliedColumns S.columns :=
+            UOp.appliedColumns_congr op _ _ hc0
+          have hwo : ({ sort := S.slots.sort } : Slots).wfOn (inner.get r0).columns := by
+            refine ⟨(Cols.subset_iff _ _).mpr fun t ht => ?_, fun c hc => by cases hc⟩
+            exact (F.cols t).mpr ((happl t).mpr (hsub t ((Cols.subset_iff _ _).mp hsc t ht)))
+          obtain ⟨ok, hk, hs⟩ := applySkip_selOK σ _ _ r F.wf F.truthful hwo
+            (fun hc => by rw [hnc] at hc) ha
+          have hrows0 : RowsHaveCols (sem σ r0) S.columns := fun x hx => (ok0.rows x hx).congr hc0
+          simp only [Res.get]
+          refine ⟨⟨ok, ?_, ?_, ?_⟩, skipOK_notChain st fuel S r (by rw [hk]; exact hnc)⟩
+          · rw [ok.sem_eq, hk, hs, Slots.sem_sortOnly, F.sem_eq, hsemS, hcomm hsc _ hrows0]
+            rw [UOp.sem_congr op _ _ happl]
+          · intro c
+            rw [ok.cols c, hs, hk]
+            exact (F.cols c).trans (happl c)
+          · rw [ok.engine, hk, F.engine, ok0.engine, hk0]; exact hS.engine.symm
+  · simp only [hg, Bool.false_eq_true, if_false, bind, Except.bind, pure, Except.pure] at h
+    cases hi : op.finishApply S with
     | error e => simp [hi] at h
     | ok inner =>
       simp only [hi] at h
@@ -354,6 +483,20 @@ theorem append_sel_sound (σ : Leaves) (st : Store) (fuel : Nat) (p : Pred) (S :
         simp only [ha] at h
         injection h with h; subst h
         exact nest_sound σ _ S hS hop inner hi r ha st fuel
+
+/-- `Selection` appended to a Select. -/
+theorem append_sel_sound (σ : Leaves) (st : Store) (fuel : Nat) (p : Pred) (S : Rel) (res : Res)
+    (hS : SelOK σ S) (hop : (UOp.sel p).wfOn S.columns = true)
+    (hnc : ∀ k, (UOp.sel p).finishApply S.skipTo = .ok (.new k) → isChain k = false)
+    (h : appendUnarySel st (fuel+1) (.u (.sel p)) S = .ok res) :
+    AppendOK σ (.sel p) S (res.get S) ∧ SkipOK st fuel S (res.get S) := by
+  rw [appendUnarySel] at h
+  by_cases hb : (S.slots.hasSlice || S.isCompound) = true
+  · simp only [hb, if_true] at h
+    refine nestOverSelect_sound σ (.sel p) S hS hop (fun _ h => h) ?_ res h st fuel
+    intro _ l _
+    simp only [UOp.sem]
+    exact filter_isort (lexLe_total _) (lexLe_trans _) _ l
   · simp only [hb, Bool.false_eq_true, if_false] at h
     simp only [Bool.or_eq_true, not_or, Bool.not_eq_true] at hb
     have hreq : p.columnsRequired.subset (S.slots.columns S.skipTo.columns) = true := by
@@ -481,78 +624,9 @@ theorem append_dedup_sound (σ : Leaves) (st : Store) (fuel : Nat) (S : Rel) (re
 
 end DafRel
 
-namespace DafRel
 
-theorem sortIf (ts : List SortTerm) (l : List Row) :
-    (if ts.isEmpty then l else isort (lexLe ts) l) = isort (lexLe ts) l := by
-  split
-  · rename_i h
-    rw [List.isEmpty_iff.mp h, isort_lexLe_nil]
-  · rfl
-
-theorem isort_sortThen (s ts : List SortTerm) (l : List Row) :
-    isort (lexLe (UOp.sortThen s ts)) l = isort (lexLe ts) (isort (lexLe s) l) := by
-  rw [isort_lexLe_append]
-  apply isort_congr
-  intro a b _ _
-  exact sortThen_lexLe s ts a b
-
-theorem isort_restrict (ts : List SortTerm) (c : Cols) (h : (UOp.sortCols ts).subset c = true) (l : List Row) :
-    isort (lexLe ts) (l.map (fun r => r.restrict c)) = (isort (lexLe ts) l).map (fun r => r.restrict c) := by
-  apply isort_map
-  intro a b _ _
-  apply lexLe_congr
-  · intro t ht; exact Expr.val_restrict t.expr a c (sortCols_subset_term ts c h t ht)
-  · intro t ht; exact Expr.val_restrict t.expr b c (sortCols_subset_term ts c h t ht)
-
-theorem sortCols_sortThen (s ts : List SortTerm) (c : Cols) (hs : (UOp.sortCols s).subset c = true)
-    (hts : (UOp.sortCols ts).subset c = true) : (UOp.sortCols (UOp.sortThen s ts)).subset c = true := by
-  rw [Cols.subset_iff] at hs hts ⊢
-  intro x hx
-  obtain ⟨t, ht, hct⟩ := (mem_sortCols _ x).mp hx
-  rcases mem_sortThen s ts t ht with h | h
-  · exact hts x ((mem_sortCols _ x).mpr ⟨t, h, hct⟩)
-  · exact hs x ((mem_sortCols _ x).mpr ⟨t, h, hct⟩)
-
-/-- One more sort after the slots (no slice recorded) = the slots with the merged sort. -/
-theorem slots_sort (sl : Slots) (cols : Cols) (ts : List SortTerm) (l : List Row) (hl : RowsHaveCols l cols)
-    (hsl : sl.wfOn cols) (hts : (UOp.sortCols ts).subset (sl.columns cols) = true)
-    (hns : (sl.sliceStart != 0 || sl.sliceStop.isSome) = false) :
-    ({ sl with sort := UOp.sortThen sl.sort ts } : Slots).sem cols l = isort (lexLe ts) (sl.sem cols l) := by
-  unfold Slots.sem
-  simp only [hns, Bool.false_eq_true, if_false, sortIf]
-  simp only [isort_sortThen]
-  generalize hx : isort (lexLe sl.sort) l = x
-  have hxc : RowsHaveCols x cols := by rw [← hx]; exact rowsHaveCols_isort hl
-  cases hpj : sl.proj with
-  | none =>
-    simp only [Slots.columns, hpj] at hts ⊢
-    cases sl.dedup with
-    | false => rfl
-    | true => simp only [if_true]; exact sort_dedup cols ts x hxc
-  | some c =>
-    simp only [Slots.columns, hpj] at hts ⊢
-    have hcs : ∀ t, t ∈ c → t ∈ cols := (Cols.subset_iff _ _).mp (hsl.2 c hpj)
-    rw [← isort_restrict ts c hts]
-    cases sl.dedup with
-    | false => rfl
-    | true =>
-      simp only [if_true]
-      exact sort_dedup c ts _ (rowsHaveCols_restrict hxc hcs)
-
-end DafRel
 
 namespace DafRel
-
-theorem Slots.sem_sortOnly (ts : List SortTerm) (cols : Cols) (l : List Row) :
-    ({ sort := ts } : Slots).sem cols l = isort (lexLe ts) l := by
-  simp only [Slots.sem, sortIf]
-  rfl
-
-theorem Slots.sem_simple (sl : Slots) (cols : Cols) (l : List Row) (hpn : sl.proj = none)
-    (hns : (sl.sliceStart != 0 || sl.sliceStop.isSome) = false) :
-    sl.sem cols l = if sl.dedup then firstOcc cols (isort (lexLe sl.sort) l) else isort (lexLe sl.sort) l := by
-  simp only [Slots.sem, sortIf, hpn, hns, Slots.columns, Bool.false_eq_true, if_false]
 
 /-- `Sort` appended to a Select. -/
 theorem append_sort_sound (σ : Leaves) (st : Store) (fuel : Nat) (ts : List SortTerm) (S : Rel) (res : Res)
@@ -751,17 +825,24 @@ theorem append_calc_sound (σ : Leaves) (st : Store) (fuel : Nat) (tag : Tag) (e
     AppendOK σ (.calc tag e) S (res.get S) ∧ SkipOK st fuel S (res.get S) := by
   rw [appendUnarySel] at h
   by_cases hb : (S.isCompound || decide (tag ∈ S.skipTo.columns)) = true
-  · simp only [hb, if_true, bind, Except.bind, pure, Except.pure] at h
-    cases hi : (UOp.calc tag e).finishApply S with
-    | error e => simp [hi] at h
-    | ok inner =>
-      simp only [hi] at h
-      cases ha : applySkip (inner.get S) {} with
-      | error e => simp [ha] at h
-      | ok r =>
-        simp only [ha] at h
-        injection h with h; subst h
-        exact nest_sound σ _ S hS hop inner hi r ha st fuel
+  · simp only [hb, if_true] at h
+    refine nestOverSelect_sound σ (.calc tag e) S hS hop
+      (fun t ht => (Cols.mem_insert _ _ _).mpr (Or.inl ht)) ?_ res h st fuel
+    intro hsc l _
+    simp only [UOp.sem]
+    have htag : tag ∉ S.columns := by
+      simp only [UOp.wfOn, UOp.columnsRequired, Bool.and_eq_true, decide_eq_true_eq] at hop
+      exact hop.2
+    symm
+    apply isort_map
+    intro a b _ _
+    apply lexLe_congr
+    · intro t ht
+      exact Expr.val_set t.expr a tag _ (fun hm => htag ((Cols.subset_iff _ _).mp
+        (sortCols_subset_term S.slots.sort S.columns hsc t ht) tag hm))
+    · intro t ht
+      exact Expr.val_set t.expr b tag _ (fun hm => htag ((Cols.subset_iff _ _).mp
+        (sortCols_subset_term S.slots.sort S.columns hsc t ht) tag hm))
   · simp only [hb, Bool.false_eq_true, if_false] at h
     simp only [Bool.or_eq_true, not_or, Bool.not_eq_true, decide_eq_true_eq] at hb
     obtain ⟨hcomp, htag⟩ := hb
